@@ -16,6 +16,7 @@ pub mod c13;
 pub mod c15;
 pub mod c16;
 pub mod c18;
+pub mod c19;
 pub mod c20;
 pub mod c21;
 pub mod c33;
@@ -52,6 +53,7 @@ pub fn dispatch(id: &str, args: &Args) -> i32 {
         "C15" => drive_main(&c15::C15, args),
         "C16" => drive_main(&c16::C16, args),
         "C18" => drive_main(&c18::C18, args),
+        "C19" => drive_main(&c19::C19, args),
         "C20" => drive_main(&c20::C20, args),
         "C21" => drive_main(&c21::C21, args),
         "C22" => drive_main(&c22::C22, args),
